@@ -422,7 +422,8 @@ class TemplateModel(object):
             self.merge_map = {}
             self.nan_idx = []
             self.sparse_clusters = self.sparse_templates
-            self.n_clusters = self.spike_templates.max() + 1
+            # NOTE: as many clusters as templates, including templates without spikes.
+            self.n_clusters = self.n_templates
 
         # Spike waveforms (optional, otherwise fetched from raw data as needed).
         self.spike_waveforms = self._load_spike_waveforms()
